@@ -14,7 +14,7 @@ import (
 	"golang.org/x/tools/go/ssa"
 )
 
-// ---------------------------------------------------------------- R07.9 "this database holds the run id" is said of the connection's database
+// ---------------------------------------------------------------- R07.10 "this database holds the run id" is said of the connection's database
 
 // ruleKnownDbIsConnectionDb is the sibling of R07.7. R07.7 accepts an offset that
 // is queued without the run-id fields when the path looked the database up in
@@ -520,7 +520,7 @@ func ruleBypassKeepsBrackets(w *core.World, r *core.Report) {
 	r.Check(bad == "", cons, badPos, "%s", bad)
 }
 
-// ---------------------------------------------------------------- R19.20 on a cluster the checkpoint never shares a batch with the commands it covers
+// ---------------------------------------------------------------- R19.21 on a cluster the checkpoint never shares a batch with the commands it covers
 
 // evalHyp evaluates a boolean along a path like Path.Eval and, where the path
 // knows nothing, under a hypothesis about some leaf values.
@@ -826,7 +826,7 @@ func ruleCheckpointAloneOnCluster(w *core.World, r *core.Report) {
 				alone++
 				continue
 			}
-			if os.Getenv("GC_DEBUG") == "R19.20" {
+			if os.Getenv("GC_DEBUG") == "R19.21" {
 				fmt.Fprintf(os.Stderr, "DEBUG attempt %d/%d arg=%v resolved=%v pipeCell=%v\n", k, len(attempts), args[1], p.Resolve(args[1]), pipeCell)
 				for _, f := range p.Conds {
 					fmt.Fprintf(os.Stderr, "DEBUG   %v := %v -> %v (res %v)\n", f.Val, f.Cond, p.Resolve(f.Cond), f.Res)
